@@ -217,6 +217,27 @@ class Runner:
             self.track(lay.add_polyline2d([(0, 0), (1, 0), (1, 1)]))
         elif kind == "addpoly3d":
             self.track(self.layout_of(op[1]).add_polyline3d([(0, 0, 0), (1, 0, 1), (1, 1, 2)]))
+        elif kind == "addattr":
+            # valid boundary values of the common graphic attributes
+            lay = self.layout_of(op[1])
+            color, lw, trans = op[2]
+            e = lay.add_line((0, 0), (1, 1), dxfattribs={"color": color} if r12 else {"color": color, "lineweight": lw})
+            if trans is not None and not r12:
+                e.transparency = trans
+            self.track(e)
+        elif kind == "groupedit":
+            if r12:
+                return
+            groups = [g for _, g in doc.groups]
+            if not groups:
+                return
+            g = groups[op[1] % len(groups)]
+            new = [self.ents[h] for h in op[2] if self.ents[h].is_alive and self.ents[h].dxf.owner is not None]
+            with g.edit_data() as data:   # keeps the old members, adds new ones
+                for e in new:
+                    if not data or e.dxf.owner == data[0].dxf.owner:
+                        if e not in data:
+                            data.append(e)
         elif kind == "addmisc":
             lay = self.layout_of(op[1])
             which = op[2]
@@ -362,7 +383,7 @@ class Runner:
         return f"{cs};{' '.join(es)};{bs};{ls};{act};{ly}"
 
 
-RICH_OPS = {"delattribs", "addattrib", "customprop", "addpoly", "addpoly3d", "addmisc", "insattr", "group", "xdict", "xdata", "reactor", "explode",
+RICH_OPS = {"addattr", "groupedit", "delattribs", "addattrib", "customprop", "addpoly", "addpoly3d", "addmisc", "insattr", "group", "xdict", "xdata", "reactor", "explode",
             "copylinked", "audit", "dellinked", "newlayer_used"}
 
 
@@ -396,6 +417,11 @@ def gen_rich(rng):
                     tgt = {"move": 3, "addex": 1, "copy": 2}[op[0]]
                     op = op[:tgt] + (rng.choice(layout_keys(r)),) + op[tgt + 1:]
             return op
+        if x < 0.49:
+            return ("addattr", rng.choice(ks), (rng.choice([0, 1, 7, 255, 256, 257]), rng.choice([-3, -2, -1, 0, 13, 211]),
+                                                rng.choice([None, None, 0.0, 0.5, 1.0])))
+        if x < 0.505:
+            return ("groupedit", rng.randrange(8), rng.sample(linked, min(len(linked), 2)))
         if x < 0.52:
             return ("addpoly", rng.choice(ks))
         if x < 0.55:
